@@ -7,7 +7,7 @@
     move-assign, re-initialise} in all stepper modes are recorded (hooks in SQuIDS.cpp) and validated by TLC.
 (3) Binding A: two-segment histories of SolverFlow (switch sets changed between segments, zero-length segments, the
     object moved between segments) compared with the exact flow; clock exact."""
-import hashlib, json, random
+import hashlib, json, os, random
 import vlib, solver
 from vlib import Infra
 
@@ -117,6 +117,44 @@ def run(v, tier, seed, replay):
         if not (terr <= 1e-9):
             v.violation("clock/seg%d/move=%d" % (si, c["move"]), "cfg=%s hist=%s: Get_t off by %.3g" % (e["cfg"], e["hist"], terr), None)
     v.cov["flow_histories"] = len(cases)
+    # ---- step-size controls interleaved with Evolve over fractions of a tick (module StepCtl with EVals): the state after
+    #      a history is the flow over the elapsed time whatever h, h_min, h_max are; GSL may refuse a run (reported by
+    #      Evolve as an exception): such histories are not judged beyond the read-back of the controls.
+    cfg2 = os.path.join(vlib.BUILD, "C10_stepctl_ev.cfg")
+    with open(cfg2, "w") as f:
+        f.write("SPECIFICATION Spec\nCONSTANTS\n  Vals = {1, 4, 64}\n  EVals = {1, 1023, 1024}\n  MaxEl = 2048\n  MaxOps = %d\nACTION_CONSTRAINT Emit\nCHECK_DEADLOCK FALSE\n" % (3 if tier == "quick" else 4))
+    re_ = vlib.tlc("StepCtl", cfg2, timeout=900, coverage=False)
+    vlib.tlc_ok(re_, "StepCtl with Evolve")
+    evh = [e for e in re_.edges if any(k == "ev" for k, _ in e["hist"])]
+    cfgs = sorted(set(k[0] for k in one if (k[0], (31, 1, 0)) in one and (k[0], (31, 2, 0)) in one))[:3]
+    if not cfgs or not evh:
+        raise Infra("step-control/Evolve replay has nothing to run (cfgs=%s histories=%d)" % (cfgs, len(evh)))
+    smodes = [("rk8pd", 1), ("rkf45", 1), ("rk4", 0), ("rkck", 1), ("msadams", 1), ("rk8pd", 0)]
+    sres, sfails = solver.stepctl_replay(exe, evh, one, [list(c) for c in cfgs], smodes)
+    if sfails:
+        raise Infra("; ".join(sfails[:2]))
+    judged = refused = 0
+    for i, r_ in sres:
+        e = evh[i]
+        if not r_["ctl_ok"]:
+            v.violation("stepctl/evolve/read-back", "after %s (mode %s): Get_h, Get_h_min, Get_h_max = %s units, specification %s" % (
+                e["hist"], r_["mode"], r_["got_ctl"], [e["h2"] / 2, e["hmin2"] / 2, e["hmax2"] / 2]), {"hist": e["hist"], "mode": list(r_["mode"])})
+        if r_["refused"]:
+            refused += 1
+            continue
+        if not r_["clock_ok"]:
+            v.violation("stepctl/evolve/clock", "after %s (units of 2^-10): Get_t = %r, elapsed %r" % (e["hist"], r_["t"], e["el"] / 1024.0), {"hist": e["hist"], "mode": list(r_["mode"])})
+        if r_["err"] is not None:
+            judged += 1
+            if not (r_["err"] / r_["scale"] <= 1e-6):
+                ctl = [k for k, _ in e["hist"] if k != "ev"]
+                v.violation("stepctl/evolve/state/%s" % ("+".join(sorted(set(ctl))) or "none"),
+                            "history %s (units of 2^-10 tick; mode %s cfg %s): state after %d whole tick(s) differs from the exact flow by %.3g (scale %.3g)" % (
+                                e["hist"], r_["mode"], r_["cfg"], e["el"] // 1024, r_["err"], r_["scale"]), {"hist": e["hist"], "mode": list(r_["mode"]), "cfg": r_["cfg"]})
+    if judged < len(evh) // 10:
+        raise Infra("vacuity: only %d of %d step-control/Evolve histories reached a whole tick without GSL refusing" % (judged, len(evh)))
+    v.add("states", re_.distinct); v.add("transitions", re_.generated)
+    v.cov["step_control_evolve_histories"] = {"replayed": len(evh), "state_compared_with_exact_flow": judged, "refused_by_gsl_step_control": refused}
     v.cov["max_rel_err"] = worst
     v.add("traces_validated_against_impl", ntr + len(cases))
     for c in cases[:1]:
